@@ -62,6 +62,8 @@ class Prop(object):
         if tier == 'thorough':
             u.append(('bodies', {'comp': 'ZIP', 'fmt': 'b', 'seed': seed, 'big': 4 << 20}))
         u.append(('kdf', {}))
+        for lo in range(0, 256, 32):
+            u.append(('garbage', {'lo': lo, 'hi': lo + 32}))
         for rc in ('rsa2048', 'cv25519', 'ecdh-p256', 'pass'):
             u.append(('sessionkeys', {'recip': rc}))
         u.append(('gpg', {}))
@@ -412,6 +414,57 @@ class Prop(object):
                              'recipient %s, cipher %s, supplied session key %s (octet sum %d)' % (rc, cipher, sname, sum(sk)), sessionkey=sk)
         r.dim('recipient', rc)
         r.samples.append(dict(case))
+        return r
+
+    def c_garbage(self, case):
+        """A message to two passphrases carries two session-key packets; decrypting with the second passphrase first tries the first packet, which then
+        decrypts to garbage. For EVERY value v of the first garbage octet (the would-be cipher id: 0 = plaintext, unassigned ids, ids PGPy knows but
+        cannot use ...) a salt is searched that makes the first packet decrypt to v... under the second passphrase; the second passphrase still opens
+        the message. Salts chosen by search, everything else by the reference."""
+        import pgpy
+        from refpgp import s2k as rs2k
+        r = Res()
+        body = b'garbage in an earlier session-key packet must not stop a later one'
+        lit = wire.packet(11, rmsg.literal_body('b', b'', 0, body))
+        sk = bytes(range(40, 56))
+        pa, pb = R.PASSPHRASE.encode('utf-8'), R.PASSPHRASE2.encode('utf-8')
+        container = wire.packet(18, renc.seipd_encrypt(7, sk, lit, prefix=bytes(range(16))))
+        second, _ = renc.skesk_body(7, pb, spec=3, hash_id=8, salt=b'\x11' * 8, coded=0, session=(7, sk))
+        found = {}
+        n = 0
+        while len(found) < case['hi'] - case['lo'] and n < 200000:
+            salt = n.to_bytes(8, 'big')
+            first, _ = renc.skesk_body(7, pa, spec=3, hash_id=8, salt=salt, coded=0, session=(7, sk))
+            # what the first packet's encrypted session key looks like under the OTHER passphrase
+            kek_b = rs2k.derive(3, 8, 16, pb, salt, 0)
+            v = renc.cfb_decrypt(7, kek_b, first[len(first) - 17:])[0]
+            if case['lo'] <= v < case['hi'] and v not in found:
+                found[v] = first
+            n += 1
+        for v in range(case['lo'], case['hi']):
+            if case.get('only') is not None and v != case['only']:
+                continue
+            r.states += 1
+            r.transitions += 2
+            if v not in found:
+                r.caps.append('no salt found for first octet %d within %d tries' % (v, n))
+                continue
+            blob = wire.packet(3, found[v]) + wire.packet(3, second) + container
+            probs = []
+            for who, pw in (('second', R.PASSPHRASE2), ('first', R.PASSPHRASE)):
+                try:
+                    d = pgpy.PGPMessage.from_blob(blob).decrypt(pw)
+                    if A.msg_view(d)['data'] != body:
+                        probs.append('the %s passphrase yields another plaintext' % who)
+                except A.HarnessBinding:
+                    raise
+                except Exception as e:
+                    probs.append('the %s passphrase does not open the message: %r' % (who, e))
+            r.outcomes['garbage:' + ('ok' if not probs else 'violation')] += 1
+            if probs:
+                r.viol('garbage', {'part': 'garbage', 'first_octet_class': 'zero' if v == 0 else 'known' if v in renc.CIPHERS else 'other'}, dict(case, only=v),
+                       'first session-key packet decrypts to a block starting with octet %d under the second passphrase: %s' % (v, '; '.join(probs)))
+        r.samples.append({'first_garbage_octets': [case['lo'], case['hi'] - 1], 'salts_tried': n})
         return r
 
     def c_kdf(self, case):
